@@ -107,6 +107,10 @@ pub enum Op {
     /// re-initialises tracing); the library starts a fresh collector, whose background thread
     /// runs one cycle at once. Only used by templates whose oracle looks at retained state.
     SetReporter,
+    /// an `Event` value (name, properties) is built now and kept by the thread; a later
+    /// `AddEvent` / `LAddEvent` with the same `e` on that thread attaches this prepared value
+    /// instead of building one on the spot
+    PrepEvent { e: u32, np: u8, k0: u32 },
 }
 
 impl Op {
@@ -145,6 +149,7 @@ impl Op {
             Op::Reent { .. } => "reentrant_closure",
             Op::Unwind { .. } => "panic_unwinds_scopes",
             Op::SetReporter => "set_reporter_again",
+            Op::PrepEvent { .. } => "event_built_ahead_of_use",
         }
     }
 }
